@@ -4,7 +4,7 @@ import os, shutil, subprocess, sys, tempfile
 from concurrent.futures import ThreadPoolExecutor
 VERIF = os.path.dirname(os.path.dirname(os.path.abspath(__file__)))
 def one(bid):
-    root = "benign_patches" if bid.startswith(("b-", "c-", "d-", "e-", "f-", "g-", "x-")) else "seeded"
+    root = "benign_patches" if bid.startswith(("b-", "c-", "d-", "e-", "f-", "g-", "h-", "x-")) else "seeded"
     d = tempfile.mkdtemp(prefix="inkalint-bpf.", dir="/tmp")
     out = os.path.join(VERIF, ".work", "bpf", bid)
     shutil.rmtree(out, ignore_errors=True)
